@@ -57,13 +57,13 @@ Fixpoint utrim_end_fuel (fuel : nat) (rs : bytes) : bytes :=
       | [] => []
       | c :: r =>
           if is_ascii_ws c then utrim_end_fuel f r
-          else match strip_any (map (@rev N) uws_seqs) rs with
+          else match strip_any (map (@frev N) uws_seqs) rs with
                | Some r' => utrim_end_fuel f r'
                | None => rs
                end
       end
   end.
-Definition utrim_e (s : bytes) : bytes := rev (utrim_end_fuel (length s) (rev s)).
+Definition utrim_e (s : bytes) : bytes := frev (utrim_end_fuel (length s) (frev s)).
 Definition utrim (s : bytes) : bytes := utrim_e (utrim_start s).
 
 (** * Commands *)
@@ -109,7 +109,7 @@ Definition rclause_p : P rclause :=
   alt (let* _ := kw K_SINCE in let* _ := skip in let* ts := strp in ret (RSince ts))
  (alt (let* _ := kw K_RETURN in let* _ := skip in
        let* _ := sym 91 in let* _ := skip in
-       let* fields := (fun s => sep_list (S (length s)) (alt (lift rident) strp) comma_sep s) in
+       let* fields := sep_list (alt (lift rident) strp) comma_sep in
        let* _ := skip in
        let* _ := sym 93 in
        ret (RReturn fields))
@@ -164,7 +164,7 @@ Fixpoint brace_scan (s : bytes) (depth : nat) (acc : bytes) : option (bytes * by
       if c =? 123 then brace_scan r (S depth) (c :: acc)
       else if c =? 125 then
         match depth with
-        | O => Some (rev (c :: acc), r)
+        | O => Some (frev (c :: acc), r)
         | S d => brace_scan r d (c :: acc)
         end
       else brace_scan r depth (c :: acc)
@@ -365,7 +365,7 @@ Definition parse_grant_like (is_grant : bool) (ts : list token) : presult :=
                   | [t_to; u] =>
                       if word_is (if is_grant then K_TO else K_FROM) t_to then
                         match name_of u with
-                        | Some n => POk ((if is_grant then CGrant else CRevokePerm) (rev perms) (rev evs) n)
+                        | Some n => POk ((if is_grant then CGrant else CRevokePerm) (frev perms) (frev evs) n)
                         | None => PErr
                         end
                       else PErr
@@ -382,7 +382,7 @@ Definition parse_grant_like (is_grant : bool) (ts : list token) : presult :=
 Fixpoint roles_loop (ts : list token) (acc : list bytes) : option (list bytes * list token) :=
   match ts with
   | [] => None
-  | TRSq :: r => Some (rev acc, r)
+  | TRSq :: r => Some (frev acc, r)
   | t :: r =>
       match name_of t with
       | Some n => roles_loop r (n :: acc)
